@@ -15,7 +15,8 @@ Inductive case :=
    function quote, doc strings the printer mangles, hash tables with several entries); the user forms of the first
    snapshot; whether each of them loaded in the fresh process; the user forms of the second snapshot; whether the
    user part of the two snapshot TEXTS is identical; whether every probe gave the same result in both processes *)
-| SCase (hist : list obj) (wildtext : bool) (snap1 : list obj) (loadok : list bool) (snap2 : list obj)
+| SCase (hist : list obj) (wildtext : bool) (snapfail : bool)   (* snapfail: (snapshot nil) itself failed *)
+        (snap1 : list obj) (loadok : list bool) (snap2 : list obj)
         (textsame probesame : bool).
 
 Definition is_unmodelled {A} (r : res A) : bool := match r with Err EUnmodelled => true | _ => false end.
@@ -40,13 +41,52 @@ Definition texts_ok (texts : list (N * tobs)) : bool :=
                          | TErr _ => false
                          end) texts
   end.
+(* where the pretty printer is known to fail (pp_guard, code_ok) a failure is excused, but every rendering it does
+   produce must still read and evaluate like the plain one *)
+Definition texts_ok_lenient (texts : list (N * tobs)) : bool :=
+  match wide_text texts with
+  | None => true
+  | Some w =>
+      let lw := list_ascii_of_string w in
+      forallb (fun mt => match snd mt with
+                         | TText t _ es => es && same_reading lw (list_ascii_of_string t)
+                         | TErr _ => true
+                         end) texts
+  end.
 Definition pp_guard (texts : list (N * tobs)) : bool :=
   match wide_text texts with Some w => negb (far_quote_text (list_ascii_of_string w)) | None => true end.
+
+(* Code the pretty printer cannot be trusted with, wherever it is nested:
+   - (defvar ...) (defparameter ...) (defconstant ...) (defflavor ...) inside another form: pp/defvar.go and
+     pp/defflavor.go lay their parts out at absolute columns, and when the enclosing form is moved the indentation
+     becomes negative: a Go panic [C19-pp-nested-definition];
+   - a form with one of the heads of pp/fun1i2.go and no argument, e.g. (with-standard-io-syntax): index out of
+     range [C19-pp-empty-form]. *)
+Definition abs_layout_heads : list string := ["defvar"; "defparameter"; "defconstant"; "defflavor"].
+Definition fun1i2_heads : list string :=
+  ["block"; "defpackage"; "dotimes"; "dolist"; "do"; "do*"; "do-all-symbols"; "do-external-symbols"; "do-symbols"; "dovector";
+   "with-input-from-octets"; "with-zip-reader"; "with-zip-writer"; "with-input-from-string"; "with-open-file";
+   "with-open-stream"; "with-output-to-string"; "with-standard-io-syntax"; "make-instance"].
+Fixpoint code_ok (top : bool) (f : obj) : bool :=
+  match f with
+  | L (Sym h :: args) =>
+      if (h =? "quote")%string then true else
+      (top || negb (existsb (String.eqb h) abs_layout_heads))
+      && negb (existsb (String.eqb h) fun1i2_heads && match args with [] => true | _ => false end)
+      && (fix go (l : list obj) : bool := match l with [] => true | a :: r => code_ok false a && go r end) args
+  | L xs => (fix go (l : list obj) : bool := match l with [] => true | a :: r => code_ok false a && go r end) xs
+  | Lam _ _ body => (fix go (l : list obj) : bool := match l with [] => true | a :: r => code_ok false a && go r end) body
+  | Dot xs _ | Vec xs _ _ | Arr _ xs _ _ =>
+      (fix go (l : list obj) : bool := match l with [] => true | a :: r => code_ok false a && go r end) xs
+  | Hash kvs => (fix go (l : list (obj * obj)) : bool := match l with [] => true | (_, w) :: r => code_ok false w && go r end) kvs
+  | _ => true
+  end.
 
 (* does the OBSERVED behaviour meet S for this value? *)
 Definition obs_meets_spec (v : obj) (r : robs) (equal : bool) (texts : list (N * tobs)) : bool :=
   match r with
-  | ROk y => obj_eqb v y && (equal || has_lambda v) && (texts_ok texts || negb (pp_guard texts))
+  | ROk y => obj_eqb v y && (equal || has_lambda v)
+             && (if pp_guard texts && code_ok false v then texts_ok texts else texts_ok_lenient texts)
   | _ => false
   end.
 
@@ -86,7 +126,7 @@ Definition doc_text_ok (d : string) : bool := doc_chars_ok d && (String.length d
 Definition docs_ok (s : session) : bool :=
   forallb (fun kv => doc_text_ok (v_doc (snd kv))) (s_vars s) && forallb (fun kv => doc_text_ok (f_doc (snd kv))) (s_funs s).
 
-Definition check_session (hist : list obj) (wildtext : bool) (snap1 : list obj) (loadok : list bool) (snap2 : list obj)
+Definition check_session (hist : list obj) (wildtext snapfail : bool) (snap1 : list obj) (loadok : list bool) (snap2 : list obj)
                          (textsame probesame : bool) : N :=
   if wildtext then 0%N else
   match run empty_session hist with
@@ -101,8 +141,9 @@ Definition check_session (hist : list obj) (wildtext : bool) (snap1 : list obj) 
          reference placeholder, which the model does not describe [C19-snapshot-forward-reference] *)
       if negb (forallb (calls_ok (s_funs s)) (s_funs s)) then 0%N else
       let agree := objs_eqb ms1 snap1 && bools_eqb oks loadok && objs_eqb ms2 snap2 in
-      let g := sess_ok s && docs_ok s in
+      let g := sess_ok s && docs_ok s && forallb (fun kv => forallb (code_ok false) (f_body (snd kv))) (s_funs s) in
       let obs_ok := forallb (fun b => b) loadok && objs_eqb snap2 snap1 && textsame && probesame in
+      if snapfail then (if g then 2 else 0)%N else    (* a crash of the snapshot writer is not something the model predicts *)
       if agree then
         if g then (if meets_spec s then (if obs_ok then 0 else 2) else 3)%N else 0%N
       else if g && negb obs_ok then 2%N else 1%N
@@ -110,8 +151,8 @@ Definition check_session (hist : list obj) (wildtext : bool) (snap1 : list obj) 
 
 Definition check_case (c : case) : N :=
   match c with
-  | SCase hist wildtext snap1 loadok snap2 textsame probesame =>
-      check_session hist wildtext snap1 loadok snap2 textsame probesame
+  | SCase hist wildtext snapfail snap1 loadok snap2 textsame probesame =>
+      check_session hist wildtext snapfail snap1 loadok snap2 textsame probesame
   | DCase v FNone _ _ _ => 0%N      (* nil offers no LoadForm method *)
   | DCase v form r equal texts =>
       let g := loadable v in
@@ -138,14 +179,17 @@ Definition guarded (c : case) : bool :=
   match c with
   | DCase v FNone _ _ _ => false
   | DCase v _ _ _ _ => loadable v
-  | SCase hist wildtext _ _ _ _ _ =>
-      negb wildtext && match run empty_session hist with Ok s => sess_ok s && docs_ok s | Err _ => false end
+  | SCase hist wildtext _ _ _ _ _ _ =>
+      negb wildtext && match run empty_session hist with
+                       | Ok s => sess_ok s && docs_ok s && forallb (fun kv => forallb (code_ok false) (f_body (snd kv))) (s_funs s)
+                       | Err _ => false
+                       end
   end.
 Definition session_count (cs : list case) : N :=
-  N.of_nat (List.length (filter (fun c => match c with SCase _ _ _ _ _ _ _ => true | _ => false end) cs)).
+  N.of_nat (List.length (filter (fun c => match c with SCase _ _ _ _ _ _ _ _ => true | _ => false end) cs)).
 Definition session_skipped (cs : list case) : N :=
   N.of_nat (List.length (filter (fun c => match c with
-     | SCase hist wildtext _ _ _ _ _ =>
+     | SCase hist wildtext _ _ _ _ _ _ =>
          wildtext || match run empty_session hist with
                      | Err EUnmodelled => true
                      | Ok s => load_unmodelled empty_session (snapshot s) || negb (forallb (calls_ok (s_funs s)) (s_funs s))
